@@ -26,8 +26,9 @@ Spec(r) == IF "evs" \in DOMAIN r THEN r.evs
            ELSE IF Whole(r) THEN ParseWhole(r.input, AsExt(r.ext)) ELSE ParseDoc(r.input, AsExt(r.ext), r.osm, Base(r))
 Ok(r) == r.obs.st = "ok"
 Silent(evs) == Diags(evs) = <<>>
-\* (a message the recorder's table does not know - "Other" - may be a reworded one: it stands for any class)
-HasCounterpart(d, obs) == \E q \in DOMAIN obs : obs[q].k = d.k /\ obs[q].cls \in {d.cls, "Other"} /\ Touch(obs[q].s, obs[q].e, d.s, d.e)
+\* (the class of a diagnostic is read off its message by the recorder: wording is no part of any property, so the class is
+\* compared only in ExactlyAsSpecified, as drift)
+HasCounterpart(d, obs) == \E q \in DOMAIN obs : obs[q].k = d.k /\ Touch(obs[q].s, obs[q].e, d.s, d.e)
 Holds(c, r) ==
   LET spec == Spec(r) IN
   CASE c = "Returns"                 -> Ok(r)
